@@ -7,6 +7,7 @@
 #include <csignal>
 #include <ctime>
 #include <map>
+#include <random>
 #include <set>
 #include <unistd.h>
 #include <unordered_map>
@@ -37,6 +38,17 @@ steady_clock::time_point steady_clock::now() noexcept
 }
 } // namespace _V2
 } // namespace chrono
+} // namespace std
+
+// Link-time replacement of the entropy source: every std::random_device in the process returns the same
+// value, so rr_cache's self-seeded generator is deterministic even when the harness cannot reach into
+// the cache to reseed it (black-box fallback build).  The white-box build reseeds per call anyway.
+namespace std
+{
+unsigned int random_device::_M_getval()
+{
+    return 20240229u;
+}
 } // namespace std
 
 using namespace vf;
@@ -553,15 +565,7 @@ struct Engine
     // Is the op offered in this model state?  (environment restrictions keeping the space finite)
     bool enabled(const Model& m, const Op& o)
     {
-        if (ck == CK::rr && !whitebox && is_insert(o.k) && (o.allow & 1))
-        {
-            // black-box fallback: the generator cannot be owned, so evictions would be nondeterministic
-            int fresh = 0;
-            for (int i = 0; i < o.n; i++)
-                fresh += !SP::live(m, o.key[i]);
-            if (m.obs.size + fresh > cfg.cap)
-                return false;
-        }
+
         if constexpr (SP::is_lfu)
         {
             // use-count cap: no touching access/update of an entry that would exceed cmax
@@ -843,7 +847,7 @@ struct Engine
         // generator: the second draw comes from the advanced generator stream.  If, for every one of the
         // RNGQ seeds, the second eviction removes exactly the key the first one just put in (i.e. hits the
         // same position again), the generator state is not advancing / the choice is stuck.
-        if (ck == CK::rr && a.rngq_all && (report & P(15)) && cfg.cap >= 2 && m.obs.size >= cfg.cap)
+        if (ck == CK::rr && whitebox && a.rngq_all && (report & P(15)) && cfg.cap >= 2 && m.obs.size >= cfg.cap)
         {
             for (int akey = 1; akey <= cfg.nkeys; akey++)
             {
@@ -889,7 +893,8 @@ struct Engine
             }
         }
         // C15: every resident must be chosen by exactly RNGQ/n of the RNGQ quantile branches
-        if (ck == CK::rr && a.rngq_all && (report & P(15)))
+        // (both C15 aggregates need the generator of the explored instance: white-box build only)
+        if (ck == CK::rr && whitebox && a.rngq_all && (report & P(15)))
         {
             for (auto& kv : c15)
             {
